@@ -350,3 +350,31 @@ RULES = [
     ("C13.R7", "T3", "events of a response series that ends unconfirmed return to the pool, so the class bits see them again (shared with C03.R3)", r7),
     ("C13.R8", "T4/T11", "the three broadcast addresses map to their confirm modes as in the standard (shared with C06.R5); counter namesakes (C03.R13)", r8),
 ]
+
+
+def r9(ctx):
+    """(a) 'the overflow bit is set ... until a confirmation leaves every type below capacity': a type with capacity 0 holds no events
+    and is never 'full' - EventBuffer::is_full::<T> answers false for max == 0 and count >= max otherwise (else the bit could never
+    clear once set, whenever some type is configured with zero capacity). (b) 'the broadcast bit follows a received broadcast': the
+    link layer hands the broadcast mode it derived from the destination address to the session unchanged - nothing in
+    Layer::process_header consumes or rewrites it before the FrameInfo is built (C07.R12, shared code)."""
+    prog = ctx.prog
+    fb = prog.body("event::buffer::EventBuffer::is_full")
+    fs = ctx.sym(fb)
+    zero = g_rel("Eq", lambda x: mentions_call(x, r"get_max$"), lambda x: const_value(prog, x) == 0)
+    kinds = set()
+    for b, si, st, e in ret_sites(fb, fs):
+        if const_value(prog, e) == 0:
+            kinds.add("zero")
+            ctx.require_guards(fb, b.idx, [("max == 0", zero)], "is_full:zero-capacity", "false for a type with no capacity")
+        else:
+            kinds.add("cmp")
+            ok = mentions(e, lambda s: s[0] == "bin" and s[1] in ("Ge", "Eq")) and mentions_call(e, r"get_type_count$") and mentions_call(e, r"get_max$")
+            ctx.check(ok, "is_full:count>=max", "is_full = %s" % expr_str(e)[:80], fb.where(b.idx))
+            ctx.require_guards(fb, b.idx, [("max != 0", g_rel("Ne", lambda x: mentions_call(x, r"get_max$"), lambda x: const_value(prog, x) == 0))], "is_full:count>=max", "the comparison applies to types with capacity")
+    ctx.check(kinds == {"zero", "cmp"}, "is_full:arms", "is_full has the zero-capacity and the comparison arm (%s)" % sorted(kinds), fb.where(line=fb.line))
+    import c07
+    c07.r12(ctx)
+
+
+RULES.append(("C13.R9", "T2", "a zero-capacity type is never full; the link layer passes the broadcast mode on unchanged (C07.R12)", r9))
